@@ -23,12 +23,24 @@ pub fn dist_pa(a: &[u8], b: &[u8]) -> Result<u32, String> {
     must("edit_distance", || pa.edit_distance(b))
 }
 
+/// the same through a position array that held `b` before it was re-initialised from `a`
+pub fn dist_pa_reused(a: &[u8], b: &[u8]) -> Result<u32, String> {
+    let mut pa = BlockHashPositionArray::new();
+    must("BlockHashPositionArray::init_from", || pa.init_from(b))?;
+    must("BlockHashPositionArray::init_from", || pa.init_from(a))?;
+    must("edit_distance", || pa.edit_distance(b))
+}
+
 /// distance through the position arrays inside a comparison target (a must be normalised)
 pub fn dist_target(a: &[u8], b: &[u8]) -> Result<(u32, u32), String> {
     let h1 = must("new_from_internals_near_raw", || LongFuzzyHash::new_from_internals_near_raw(3, a, &[]))?;
     let h2 = must("new_from_internals_near_raw", || LongFuzzyHash::new_from_internals_near_raw(3, &[], a))?;
-    let t1 = must("FuzzyHashCompareTarget::from", || FuzzyHashCompareTarget::from(&h1))?;
-    let t2 = must("FuzzyHashCompareTarget::from", || FuzzyHashCompareTarget::from(&h2))?;
+    // targets that held another hash before (its block hashes swapped, so that both the "empty block hash 1,
+    // non-empty block hash 2" and the opposite situation precede the initialisation)
+    let mut t1 = must("FuzzyHashCompareTarget::from", || FuzzyHashCompareTarget::from(&h2))?;
+    must("init_from", || t1.init_from(&h1))?;
+    let mut t2 = must("FuzzyHashCompareTarget::from", || FuzzyHashCompareTarget::from(&h1))?;
+    must("init_from", || t2.init_from(&h2))?;
     let d1 = must("block_hash_1().edit_distance", || t1.block_hash_1().edit_distance(b))?;
     let d2 = must("block_hash_2().edit_distance", || t2.block_hash_2().edit_distance(b))?;
     Ok((d1, d2))
@@ -40,6 +52,8 @@ pub fn check_pair(a: &[u8], b: &[u8], st: &mut Stats, with_target: bool) -> Resu
     ensure_eq!(got, d, "edit_distance(a={:?}, b={:?})", a, b);
     let rev = dist_pa(b, a)?;
     ensure_eq!(rev, d, "edit_distance reversed (a={:?}, b={:?})", a, b);
+    let re = dist_pa_reused(a, b)?;
+    ensure_eq!(re, d, "edit_distance through a re-initialised position array (a={:?}, b={:?})", a, b);
     if with_target {
         if oracle::fmt::is_collapsed(a) {
             let (d1, d2) = dist_target(a, b)?;
@@ -92,6 +106,10 @@ fn exhaustive(name: &'static str, alpha: u64, maxlen: u32, syms: &'static [u8]) 
                 let got = dist_pa(&a, &b).map_err(|m| (i, m))?;
                 if got != d {
                     return Err((i, format!("edit_distance(a={:?}, b={:?}) = {} but LCS distance is {}", a, b, got, d)));
+                }
+                let re = dist_pa_reused(&a, &b).map_err(|m| (i, m))?;
+                if re != d {
+                    return Err((i, format!("edit_distance(a={:?}, b={:?}) through a re-initialised position array = {} but LCS distance is {}", a, b, re, d)));
                 }
                 st.count(1);
                 if !a.is_empty() && !b.is_empty() && d > 0 && (d as usize) < a.len() + b.len() {
